@@ -128,17 +128,18 @@ def PPSrc (e : Event) (c : Cfg) (ppm : PPMsg) (f : Bool) : Prop :=
 /-- what `checkElected` / `onElectedByViewChange` have established when the leader proposes `hash` in its
 NEW_VIEW: the logged votes for the node's (new) view reach quorum, and `hash` is the hash certified by
 a highest-view proof among the votes that carry a block — or no vote carries a block -/
-def ElectedBy (a : Node) (hash : Nat) : Prop :=
+def ElectedBy (spi0 : List Spi) (a : Node) (hash : Nat) : Prop :=
   ∃ h, isQuorum a.cfg ((a.store.getVCs h a.view).map (·.c.sender.id)) = true
     ∧ ((∃ b, latestBlockFromVCs (a.store.getVCs h a.view) = some (b, hash))
-        ∨ latestBlockFromVCs (a.store.getVCs h a.view) = none)
+        ∨ (latestBlockFromVCs (a.store.getVCs h a.view) = none
+            ∧ ∃ b cd rest, spi0 = Spi.proposal b cd :: rest ∧ hash = b.hash))
 
-/-- the atomic blocks of the handling of event `e` -/
-inductive Blk (e : Event) : Node → Node → List Out → List LEv → Prop where
+/-- the atomic blocks of the handling of event `e` with the SPI answers `spi0` -/
+inductive Blk (e : Event) (spi0 : List Spi) : Node → Node → List Out → List LEv → Prop where
   /-- bookkeeping; effects that carry no statement; the log is untouched -/
-  | quiet {a b : Node} {l : List Out} (hq : Quiet a b) (hs : b.store = a.store) (hl : ∀ o ∈ l, stmtOf o = none) : Blk e a b l []
+  | quiet {a b : Node} {l : List Out} (hq : Quiet a b) (hs : b.store = a.store) (hl : ∀ o ∈ l, stmtOf o = none) : Blk e spi0 a b l []
   /-- the delivered PREPARE / COMMIT / VIEW_CHANGE is logged as it is -/
-  | log {a : Node} (op : StoreOp) (he : evOp e = some op) : Blk e a { a with store := a.store.apply op } [] []
+  | log {a : Node} (op : StoreOp) (he : evOp e = some op) : Blk e spi0 a { a with store := a.store.apply op } [] []
   /-- `processPreprepare`: a proposal of the current view is stored together with the own PREPARE,
   which is sent.  No proposal was stored for this view; the node is not this view's leader; and in a
   view > 0 the proposal came in a NEW_VIEW or does not conflict with the node's lock. -/
@@ -147,8 +148,10 @@ inductive Blk (e : Event) : Node → Node → List Out → List LEv → Prop whe
       (hnone : a.store.getPP a.cfg.height a.view = none)
       (hnl : isLeader a.cfg a.cfg.me a.view = false)
       (hlock : a.view = 0 ∨ f = true ∨ lockConflict a ppm = false)
-      (hsrc : PPSrc e a.cfg ppm f) :
-      Blk e a (acceptNode a ppm)
+      (hsrc : PPSrc e a.cfg ppm f)
+      (hval : (f = false ∨ ∃ nvm : NVMsg, e = .deliver (.newView nvm) ∧ latestVote nvm.header.votes = none) →
+          ∃ cd rest, spi0 = Spi.verdict true cd :: rest) :
+      Blk e spi0 a (acceptNode a ppm)
         [.send rcpt (.prepare (ownPrepare a.cfg ppm.c.header.height ppm.c.header.view ppm.c.header.hash))]
         [.acc ppm.c.header.view ppm.c.header.hash f]
   /-- `onPreparedLocally`, first half: the node becomes prepared in its current view on the stored
@@ -157,20 +160,20 @@ inductive Blk (e : Event) : Node → Node → List Out → List LEv → Prop whe
       (hv : v = a.view) (hnot : a.prepared ≠ some v)
       (hpp : ∃ ppm, a.store.getPP a.cfg.height v = some ppm ∧ ppm.c.header.hash = hash ∧ ppm.block.isSome = true)
       (hproof : (extractProof a v).isSome = true) :
-      Blk e a (preparedNode a v hash)
+      Blk e spi0 a (preparedNode a v hash)
         [.send rcpt (.commit (ownCommit a.cfg a.cfg.height v hash))]
         [.com v hash]
   /-- `sendCommitIfNotAlreadySent` inside `checkCommitted`: a commit quorum for (v, hash) is logged -/
   | late {a : Node} (h v hash : Nat) (rcpt : List Nat)
       (hq : isQuorum a.cfg ((a.store.getCommits h v hash).map (·.sender.id)) = true) :
-      Blk e a a [.send rcpt (.commit (ownCommit a.cfg h v hash))] [.lcom v hash]
+      Blk e spi0 a a [.send rcpt (.commit (ownCommit a.cfg h v hash))] [.lcom v hash]
   /-- the commit callback: a commit quorum for (h, v, hash) is logged and handed over together with the
   block of the stored proposal of (h, v), whose signed hash is `hash` -/
   | decide {a b : Node} (blk : Block) (cs : List CMsg) (h v hash : Nat) (hq : Quiet a b) (hs : b.store = a.store)
       (hcs : cs = a.store.getCommits h v hash)
       (hcq : isQuorum a.cfg (cs.map (·.sender.id)) = true)
       (hpp : ∃ ppm, a.store.getPP h v = some ppm ∧ ppm.block = some blk ∧ ppm.c.header.hash = hash) :
-      Blk e a b [.commit blk cs] [.dec (commitHash cs)]
+      Blk e spi0 a b [.commit blk cs] [.dec (commitHash cs)]
   /-- the leader's own proposal (PREPREPARE of view 0, or NEW_VIEW after being elected): stored and
   sent; no proposal was stored for this view, and the view is one the leader bookkeeping covers -/
   | propose {a : Node} (ppm : PPMsg) (f : Bool) (o : Out)
@@ -180,30 +183,36 @@ inductive Blk (e : Event) : Node → Node → List Out → List LEv → Prop whe
       (hf : a.view = 0 ∨ f = true)
       (ho : stmtOf o = some (.acc ppm.c.header.view ppm.c.header.hash))
       (hown : ppm.c.sender = mySig a.cfg ∧ ppm.c.header.inst = a.cfg.inst ∧ ppm.c.header.mtype = tPP)
-      (hsrc : f = true → ElectedBy a ppm.c.header.hash) :
-      Blk e a { a with store := a.store.storePP ppm } [o] [.acc ppm.c.header.view ppm.c.header.hash f]
+      (hsrc : f = true → ElectedBy spi0 a ppm.c.header.hash)
+      (hreq : f = false → ∃ b cd rest, spi0 = Spi.proposal b cd :: rest ∧ ppm.c.header.hash = b.hash)
+      (hblk : ∃ b, ppm.block = some b ∧ (b.hash = ppm.c.header.hash
+          ∨ ∃ h, latestBlockFromVCs (a.store.getVCs h a.view) = some (b, ppm.c.header.hash)))
+      (hmsg : (∃ rcpt, o = .send rcpt (.preprepare ppm))
+        ∨ (∃ rcpt nvm h, o = .send rcpt (.newView nvm) ∧ nvm.pp = ppm.c ∧ nvm.header.votes = (a.store.getVCs h a.view).map (·.c))) :
+      Blk e spi0 a { a with store := a.store.storePP ppm } [o] [.acc ppm.c.header.view ppm.c.header.hash f]
   /-- the vote of a node that is not the next leader: sent -/
   | voteSend {a : Node} (vc : VCMsg) (rcpt : List Nat)
       (hv : vc.c.header.view = a.view) (hp : vc.c.header.proof = voteProof a)
-      (hpv : ∀ pv, a.prepared = some pv → pv < a.view) :
-      Blk e a a [.send rcpt (.viewChange vc)] [.vote a.view (pfOf vc.c.header.proof) true]
+      (hpv : ∀ pv, a.prepared = some pv → pv < a.view)
+      (hown : vc.c.sender = mySig a.cfg ∧ vc.c.header.inst = a.cfg.inst ∧ vc.c.header.height = a.cfg.height ∧ vc.c.header.mtype = tVC) :
+      Blk e spi0 a a [.send rcpt (.viewChange vc)] [.vote a.view (pfOf vc.c.header.proof) true]
   /-- the vote of the next leader: logged (it goes out inside the NEW_VIEW) -/
   | voteStore {a : Node} (vc : VCMsg)
       (hv : vc.c.header.view = a.view) (hp : vc.c.header.proof = voteProof a)
       (hown : vc.c.sender = mySig a.cfg ∧ vc.c.header.inst = a.cfg.inst ∧ vc.c.header.height = a.cfg.height ∧ vc.c.header.mtype = tVC)
       (hpv : ∀ pv, a.prepared = some pv → pv < a.view) (hb : vc.block = voteBlock a) :
-      Blk e a { a with store := a.store.storeVC vc } [] [.vote a.view (pfOf vc.c.header.proof) false]
+      Blk e spi0 a { a with store := a.store.storeVC vc } [] [.vote a.view (pfOf vc.c.header.proof) false]
 
 /-- `w'` is reached from `w` by blocks that make the statements `g` (oldest first) -/
-inductive Runs (e : Event) : W → W → List LEv → Prop where
-  | refl (w : W) : Runs e w w []
-  | blk {w w' : W} {l : List Out} {g : List LEv} (ho : w'.outs = w.outs ++ l) (hb : Blk e w.n w'.n l g) : Runs e w w' g
-  | trans {a b c : W} {g1 g2 : List LEv} : Runs e a b g1 → Runs e b c g2 → Runs e a c (g1 ++ g2)
+inductive Runs (e : Event) (spi0 : List Spi) : W → W → List LEv → Prop where
+  | refl (w : W) : Runs e spi0 w w []
+  | blk {w w' : W} {l : List Out} {g : List LEv} (ho : w'.outs = w.outs ++ l) (hb : Blk e spi0 w.n w'.n l g) : Runs e spi0 w w' g
+  | trans {a b c : W} {g1 g2 : List LEv} : Runs e spi0 a b g1 → Runs e spi0 b c g2 → Runs e spi0 a c (g1 ++ g2)
 
-variable {e : Event}
+variable {e : Event} {spi0 : List Spi}
 
 /-- the statements made are the statement-carrying effects emitted, in order -/
-theorem Blk.erase {a b : Node} {l : List Out} {g : List LEv} (h : Blk e a b l g) :
+theorem Blk.erase {a b : Node} {l : List Out} {g : List LEv} (h : Blk e spi0 a b l g) :
     l.filterMap stmtOf = g.filterMap erase := by
   cases h with
   | quiet hq hs hl =>
@@ -215,10 +224,10 @@ theorem Blk.erase {a b : Node} {l : List Out} {g : List LEv} (h : Blk e a b l g)
   | late h v hash rcpt => rfl
   | decide blk cs => rfl
   | propose ppm f o hh hv hnone hlnv hf ho => simp only [List.filterMap, ho]; rfl
-  | voteSend vc rcpt hv hp _ => simp only [List.filterMap, stmtOf, hv]; rfl
+  | voteSend vc rcpt hv hp _ _ => simp only [List.filterMap, stmtOf, hv]; rfl
   | voteStore vc => rfl
 
-theorem Runs.erase {w w' : W} {g : List LEv} (h : Runs e w w' g) :
+theorem Runs.erase {w w' : W} {g : List LEv} (h : Runs e spi0 w w' g) :
     ∃ l, w'.outs = w.outs ++ l ∧ l.filterMap stmtOf = g.filterMap erase := by
   induction h with
   | refl w => exact ⟨[], by simp, rfl⟩
@@ -229,19 +238,19 @@ theorem Runs.erase {w w' : W} {g : List LEv} (h : Runs e w w' g) :
     exact ⟨l1 ++ l2, by rw [e2, e1, List.append_assoc], by rw [List.filterMap_append, List.filterMap_append, f1, f2]⟩
 
 /-- existential form used by the handler pass -/
-def RunsE (e : Event) (w w' : W) : Prop := ∃ g, Runs e w w' g
+def RunsE (e : Event) (spi0 : List Spi) (w w' : W) : Prop := ∃ g, Runs e spi0 w w' g
 
-theorem RunsE.refl (w : W) : RunsE e w w := ⟨[], .refl w⟩
-theorem RunsE.trans {a b c : W} (h1 : RunsE e a b) (h2 : RunsE e b c) : RunsE e a c := by
+theorem RunsE.refl (w : W) : RunsE e spi0 w w := ⟨[], .refl w⟩
+theorem RunsE.trans {a b c : W} (h1 : RunsE e spi0 a b) (h2 : RunsE e spi0 b c) : RunsE e spi0 a c := by
   obtain ⟨g1, r1⟩ := h1
   obtain ⟨g2, r2⟩ := h2
   exact ⟨g1 ++ g2, .trans r1 r2⟩
-theorem RunsE.blk {w w' : W} {l : List Out} {g : List LEv} (ho : w'.outs = w.outs ++ l) (hb : Blk e w.n w'.n l g) : RunsE e w w' :=
+theorem RunsE.blk {w w' : W} {l : List Out} {g : List LEv} (ho : w'.outs = w.outs ++ l) (hb : Blk e spi0 w.n w'.n l g) : RunsE e spi0 w w' :=
   ⟨g, .blk ho hb⟩
 
 /-- a step that appends only statement-free effects and is `Quiet` on the node -/
 theorem RunsE.quiet {w w' : W} (hq : Quiet w.n w'.n) (hs : w'.n.store = w.n.store)
-    (ha : Appends (fun o => stmtOf o = none) w w') : RunsE e w w' := by
+    (ha : Appends (fun o => stmtOf o = none) w w') : RunsE e spi0 w w' := by
   obtain ⟨l, e', p⟩ := ha
   exact RunsE.blk e' (.quiet hq hs p)
 
@@ -249,7 +258,7 @@ theorem RunsE.quiet {w w' : W} (hq : Quiet w.n w'.n) (hs : w'.n.store = w.n.stor
 def NS (o : Out) : Prop := stmtOf o = none
 theorem NS_benign : Benign NS := ⟨fun _ _ => rfl, fun _ => rfl, fun _ _ _ => rfl, fun _ => rfl⟩
 
-theorem RunsE.of_eq {w w' : W} (h : w' = w) : RunsE e w w' := by rw [h]; exact RunsE.refl w
+theorem RunsE.of_eq {w w' : W} (h : w' = w) : RunsE e spi0 w w' := by rw [h]; exact RunsE.refl w
 
 /-! ## store facts -/
 
@@ -328,11 +337,11 @@ theorem extractProof_isSome (n : Node) (pv : Nat) (ppm : PPMsg)
 
 /-! ## the handler pass: the commit and prepare paths -/
 
-theorem ctxFor_runs (w : W) (h v : Nat) : RunsE e w (ctxFor w h v).1 := by
+theorem ctxFor_runs (w : W) (h v : Nat) : RunsE e spi0 w (ctxFor w h v).1 := by
   obtain ⟨c1, c2, c3, c4, _, c6⟩ := ctxFor_n w h v
   exact RunsE.quiet (Quiet.of_eqs c1 c2 c3 c4 c6) c2 (Appends.of_outs_eq (ctxFor_outs _ _ _))
 
-theorem checkCommitted_runs (w : W) (h v hash : Nat) : RunsE e w (checkCommitted w h v hash) := by
+theorem checkCommitted_runs (w : W) (h v hash : Nat) : RunsE e spi0 w (checkCommitted w h v hash) := by
   unfold checkCommitted
   dsimp only
   split
@@ -345,7 +354,7 @@ theorem checkCommitted_runs (w : W) (h v hash : Nat) : RunsE e w (checkCommitted
   split
   · exact RunsE.refl _
   · rename_i ppm hget
-    have h0 : RunsE e w (ctxFor w h maxView).1 := ctxFor_runs w h maxView
+    have h0 : RunsE e spi0 w (ctxFor w h maxView).1 := ctxFor_runs w h maxView
     obtain ⟨c1, c2, _, _, _, _⟩ := ctxFor_n w h maxView
     have hq' : isQuorum w.n.cfg ((w.n.store.getCommits h v hash).map (·.sender.id)) = true := by simpa using hq
     have hhash : ppm.c.header.hash = hash := by
@@ -360,7 +369,7 @@ theorem checkCommitted_runs (w : W) (h v hash : Nat) : RunsE e w (checkCommitted
       · exact h0
       · rename_i b hb
         have hdec : ∀ (a : Node), a.cfg = w.n.cfg → a.store = w.n.store →
-            Blk e a { a with committed := some b } [.commit b (w.n.store.getCommits h v hash)]
+            Blk e spi0 a { a with committed := some b } [.commit b (w.n.store.getCommits h v hash)]
               [.dec (commitHash (w.n.store.getCommits h v hash))] := by
           intro a ha1 ha2
           refine .decide b _ h v hash (Quiet.of_eqs rfl rfl rfl rfl rfl) rfl (by rw [ha2]) (by rw [ha1]; exact hq') ?_
@@ -368,7 +377,7 @@ theorem checkCommitted_runs (w : W) (h v hash : Nat) : RunsE e w (checkCommitted
           exact ⟨ppm, hget, hb, hhash⟩
         split
         · exact h0.trans (RunsE.blk (l := [.commit b _]) rfl (hdec _ c1 c2))
-        · have h1 : RunsE e (ctxFor w h maxView).1 ((ctxFor w h maxView).1.emit
+        · have h1 : RunsE e spi0 (ctxFor w h maxView).1 ((ctxFor w h maxView).1.emit
               (.send (others (ctxFor w h maxView).1.n.cfg) (.commit (ownCommit (ctxFor w h maxView).1.n.cfg h v hash)))) := by
             refine RunsE.blk (l := [_]) rfl (.late h v hash _ ?_)
             rw [c1, c2]
@@ -379,7 +388,7 @@ theorem onPreparedLocally_runs (w : W) (h v hash : Nat) (hh : h = w.n.cfg.height
     (hnot : w.n.prepared ≠ some v)
     (hpp : ∃ ppm, w.n.store.getPP w.n.cfg.height v = some ppm ∧ ppm.c.header.hash = hash ∧ ppm.block.isSome = true)
     (hproof : (extractProof w.n v).isSome = true) :
-    RunsE e w (onPreparedLocally w h v hash) := by
+    RunsE e spi0 w (onPreparedLocally w h v hash) := by
   subst hh
   unfold onPreparedLocally
   dsimp only
@@ -388,7 +397,7 @@ theorem onPreparedLocally_runs (w : W) (h v hash : Nat) (hh : h = w.n.cfg.height
 
 theorem checkPreparedLocally_runs (w : W) (h v hash : Nat) (hh : h = w.n.cfg.height) (hv : w.n.view ≤ v)
     (hvo : ViewsOK w.n) (hne : w.n.store.getPrepares h v hash ≠ []) :
-    RunsE e w (checkPreparedLocally w h v hash) := by
+    RunsE e spi0 w (checkPreparedLocally w h v hash) := by
   rcases checkPreparedLocally_cases w h v hash with e | ⟨⟨hnot, hpre, ppm, hg, hq⟩, e⟩
   · rw [e]; exact RunsE.refl _
   · rw [e]
@@ -404,7 +413,7 @@ theorem checkPreparedLocally_runs (w : W) (h v hash : Nat) (hh : h = w.n.cfg.hei
     exact onPreparedLocally_runs w _ v _ rfl (by omega) hnot ⟨ppm, hg, rfl, hpre'.1⟩ (extractProof_isSome w.n v ppm hg hq hne)
 
 theorem handlePrepare_runs (w : W) (pm : PMsg) (hh : pm.header.height = w.n.cfg.height) (hvo : ViewsOK w.n) :
-    RunsE (.deliver (.prepare pm)) w (handlePrepare w pm) := by
+    RunsE (.deliver (.prepare pm)) spi0 w (handlePrepare w pm) := by
   unfold handlePrepare
   dsimp only
   split; exact RunsE.refl _
@@ -413,30 +422,30 @@ theorem handlePrepare_runs (w : W) (pm : PMsg) (hh : pm.header.height = w.n.cfg.
   split; exact RunsE.refl _
   rename_i hvw
   split; exact RunsE.refl _
-  have hlog : RunsE (.deliver (.prepare pm)) w ({ w with n := { w.n with store := w.n.store.storePrepare pm } } : W) :=
+  have hlog : RunsE (.deliver (.prepare pm)) spi0 w ({ w with n := { w.n with store := w.n.store.storePrepare pm } } : W) :=
     RunsE.blk (l := []) (by simp) (.log (.prepare pm) rfl)
   refine RunsE.trans hlog ?_
   refine checkPreparedLocally_runs _ _ _ _ hh (by show w.n.view ≤ pm.header.view; omega) ?_ (getPrepares_storePrepare_ne _ _)
   exact hvo.of_same (storePrepare_pps _ _) rfl (Nat.le_refl _)
 
-theorem handleCommit_runs (w : W) (cm : CMsg) : RunsE (.deliver (.commit cm)) w (handleCommit w cm) := by
+theorem handleCommit_runs (w : W) (cm : CMsg) : RunsE (.deliver (.commit cm)) spi0 w (handleCommit w cm) := by
   unfold handleCommit
   dsimp only
   split; exact RunsE.refl _
   split; exact RunsE.refl _
   split; exact RunsE.refl _
   split; exact RunsE.refl _
-  have hlog : RunsE (.deliver (.commit cm)) w ({ w with n := { w.n with store := w.n.store.storeCommit cm } } : W) :=
+  have hlog : RunsE (.deliver (.commit cm)) spi0 w ({ w with n := { w.n with store := w.n.store.storeCommit cm } } : W) :=
     RunsE.blk (l := []) (by simp) (.log (.commit cm) rfl)
   exact RunsE.trans hlog (checkCommitted_runs _ _ _ _)
 
 /-! ## quiet helpers -/
 
-theorem askValidate_runs (w : W) (h v : Nat) (b : Option Block) (hash : Nat) : RunsE e w (askValidate w h v b hash).1 := by
+theorem askValidate_runs (w : W) (h v : Nat) (b : Option Block) (hash : Nat) : RunsE e spi0 w (askValidate w h v b hash).1 := by
   obtain ⟨c1, c2, c3, c4, _, c6⟩ := askValidate_n w h v b hash
   exact RunsE.quiet (Quiet.of_eqs c1 c2 c3 c4 c6) c2 (askValidate_appends' NS_benign w h v b hash)
 
-theorem askProposal_runs (w : W) (h v : Nat) : RunsE e w (askProposal w h v).1 := by
+theorem askProposal_runs (w : W) (h v : Nat) : RunsE e spi0 w (askProposal w h v).1 := by
   obtain ⟨c1, c2, c3, c4, _, c6⟩ := askProposal_n w h v
   exact RunsE.quiet (Quiet.of_eqs c1 c2 c3 c4 c6) c2 (askProposal_appends' NS_benign w h v)
 
@@ -446,7 +455,7 @@ theorem initView_quiet (w : W) (v : Nat) : Quiet w.n (initView w v).1.n := by
   | true => exact ⟨c1, by rw [(i6 hok).1]; exact (i6 hok).2, by rw [c6]; exact Nat.le_refl _, c4, by rw [c2], by rw [c2]; exact List.prefix_refl _⟩
   | false => rw [i7 hok]; exact Quiet.refl _
 
-theorem initView_runs (w : W) (v : Nat) : RunsE e w (initView w v).1 :=
+theorem initView_runs (w : W) (v : Nat) : RunsE e spi0 w (initView w v).1 :=
   RunsE.quiet (initView_quiet w v) (initView_n w v).2.1 (initView_appends' NS_benign w v)
 
 /-- proposals this node would lead are covered by the leader bookkeeping: a stored proposal of a view
@@ -476,13 +485,51 @@ theorem viewsOK_acceptNode (a : Node) (ppm : PPMsg) (hvo : ViewsOK a) (hv : ppm.
 
 /-! ## the handler pass: proposals -/
 
+theorem initView_spi (w : W) (v : Nat) : (initView w v).1.spi = w.spi := by
+  unfold initView; split <;> rfl
+
+/-- a positive validation result means the next SPI answer was a positive verdict -/
+theorem askValidate_ok_spi (w : W) (h v : Nat) (b : Option Block) (hash : Nat)
+    (hok : (askValidate w h v b hash).2 = true) : ∃ cd rest, w.spi = Spi.verdict true cd :: rest := by
+  unfold askValidate at hok
+  dsimp only at hok
+  have hs : (ctxFor w h v).1.spi = w.spi := rfl
+  split at hok
+  · cases hok
+  · split at hok
+    · rename_i id _ good cd rest hspi
+      simp only [Bool.and_eq_true] at hok
+      have hspi' : w.spi = Spi.verdict good cd :: rest := by simpa [W.emit, hs] using hspi
+      exact ⟨cd, rest, by rw [hspi', hok.1]⟩
+    · cases hok
+
+/-- a block obtained from `askProposal` is the next SPI answer -/
+theorem askProposal_some_spi (w : W) (h v : Nat) (b : Block) (hsome : (askProposal w h v).2 = some b) :
+    ∃ cd rest, w.spi = Spi.proposal b cd :: rest := by
+  unfold askProposal at hsome
+  dsimp only at hsome
+  have hs : (ctxFor w h v).1.spi = w.spi := rfl
+  split at hsome
+  · cases hsome
+  · split at hsome
+    · rename_i id _ b' cd rest hspi
+      have hspi' : w.spi = Spi.proposal b' cd :: rest := by simpa [W.emit, hs] using hspi
+      split at hsome
+      · cases hsome
+      · have : b' = b := Option.some.inj hsome
+        subst this
+        exact ⟨cd, rest, hspi'⟩
+    · cases hsome
+
 theorem processPreprepare_runs (w : W) (ppm : PPMsg) (f : Bool)
     (hh : ppm.c.header.height = w.n.cfg.height)
     (hnone : w.n.store.getPP w.n.cfg.height ppm.c.header.view = none)
     (hnl : isLeader w.n.cfg w.n.cfg.me ppm.c.header.view = false)
     (hlock : w.n.view = 0 ∨ f = true ∨ lockConflict w.n ppm = false)
     (hsrc : PPSrc e w.n.cfg ppm f)
-    (hvo : ViewsOK w.n) : RunsE e w (processPreprepare w ppm) := by
+    (hval : (f = false ∨ ∃ nvm : NVMsg, e = .deliver (.newView nvm) ∧ latestVote nvm.header.votes = none) →
+        ∃ cd rest, spi0 = Spi.verdict true cd :: rest)
+    (hvo : ViewsOK w.n) : RunsE e spi0 w (processPreprepare w ppm) := by
   unfold processPreprepare
   dsimp only
   split
@@ -491,9 +538,9 @@ theorem processPreprepare_runs (w : W) (ppm : PPMsg) (f : Bool)
     have hv : ppm.c.header.view = w.n.view := by
       have : ¬ (w.n.view ≠ ppm.c.header.view) := by simpa using hvw
       omega
-    have h1 : RunsE e w (({ w with n := acceptNode w.n ppm } : W).emit
+    have h1 : RunsE e spi0 w (({ w with n := acceptNode w.n ppm } : W).emit
         (.send (others w.n.cfg) (.prepare (ownPrepare w.n.cfg ppm.c.header.height ppm.c.header.view ppm.c.header.hash)))) :=
-      RunsE.blk (l := [_]) rfl (.accept ppm f (others w.n.cfg) hh hv (by rw [← hv]; exact hnone) (by rw [← hv]; exact hnl) hlock hsrc)
+      RunsE.blk (l := [_]) rfl (.accept ppm f (others w.n.cfg) hh hv (by rw [← hv]; exact hnone) (by rw [← hv]; exact hnl) hlock hsrc hval)
     refine h1.trans ?_
     refine checkPreparedLocally_runs _ _ _ _ hh (by show w.n.view ≤ _; omega) (viewsOK_acceptNode _ _ hvo hv) ?_
     exact getPrepares_storePrepare_ne (w.n.store.storePP ppm) (ownPrepare w.n.cfg ppm.c.header.height ppm.c.header.view ppm.c.header.hash)
@@ -513,7 +560,8 @@ theorem validatePreprepare_congr {a b : Node} (hc : b.cfg = a.cfg) (hs : b.store
   unfold validatePreprepare; rw [hc, hs]
 
 theorem handlePrePrepare_runs (w : W) (ppm : PPMsg) (hh : ppm.c.header.height = w.n.cfg.height)
-    (hs : ppm.c.sender.id ≠ w.n.cfg.me) (hvo : ViewsOK w.n) : RunsE (.deliver (.preprepare ppm)) w (handlePrePrepare w ppm) := by
+    (hs : ppm.c.sender.id ≠ w.n.cfg.me) (hvo : ViewsOK w.n) (hspi : w.spi = spi0) :
+    RunsE (.deliver (.preprepare ppm)) spi0 w (handlePrePrepare w ppm) := by
   unfold handlePrePrepare
   split
   · exact RunsE.refl _
@@ -524,14 +572,20 @@ theorem handlePrePrepare_runs (w : W) (ppm : PPMsg) (hh : ppm.c.header.height = 
   dsimp only
   have hval' : validatePreprepare w.n ppm = true := by simpa using hval
   have hlc' : lockConflict w.n ppm = false := by simpa using hlc
-  have h0 : RunsE (.deliver (.preprepare ppm)) w _ := askValidate_runs w ppm.c.header.height ppm.c.header.view ppm.block ppm.c.header.hash
+  have h0 : RunsE (.deliver (.preprepare ppm)) spi0 w _ := askValidate_runs w ppm.c.header.height ppm.c.header.view ppm.block ppm.c.header.hash
   obtain ⟨a1, a2, a3, a4, _⟩ := askValidate_n w ppm.c.header.height ppm.c.header.view ppm.block ppm.c.header.hash
-  generalize askValidate w ppm.c.header.height ppm.c.header.view ppm.block ppm.c.header.hash = r at h0 a1 a2 a3 a4 ⊢
+  have hsv := askValidate_ok_spi w ppm.c.header.height ppm.c.header.view ppm.block ppm.c.header.hash
+  generalize askValidate w ppm.c.header.height ppm.c.header.view ppm.block ppm.c.header.hash = r at h0 a1 a2 a3 a4 hsv ⊢
   obtain ⟨w1, ok⟩ := r
-  dsimp only at h0 a1 a2 a3 a4 ⊢
+  dsimp only at h0 a1 a2 a3 a4 hsv ⊢
   split
   · exact h0
-  · refine h0.trans (processPreprepare_runs w1 ppm false (by rw [a1]; exact hh) ?_ ?_ ?_ (Or.inl ⟨rfl, rfl⟩) (hvo.of_same (by rw [a2]) a4 (by rw [a3]; exact Nat.le_refl _)))
+  · rename_i hok
+    have hval : (false = false ∨ ∃ nvm : NVMsg, Event.deliver (.preprepare ppm) = .deliver (.newView nvm) ∧ latestVote nvm.header.votes = none) →
+        ∃ cd rest, spi0 = Spi.verdict true cd :: rest := by
+      intro _
+      rw [← hspi]; exact hsv (by simpa using hok)
+    refine h0.trans (processPreprepare_runs w1 ppm false (by rw [a1]; exact hh) ?_ ?_ ?_ (Or.inl ⟨rfl, rfl⟩) hval (hvo.of_same (by rw [a2]) a4 (by rw [a3]; exact Nat.le_refl _)))
     · rw [a1, a2, ← hh]; exact validated_none w.n ppm hval'
     · rw [a1]; exact not_leader_of_validated w.n ppm hval' hs
     · exact Or.inr (Or.inr (by rw [lockConflict_congr a4 a2]; exact hlc'))
@@ -546,23 +600,25 @@ theorem lockOk_cfg {a b : Node} (h : a.cfg = b.cfg) (nvm : NVMsg) : lockOk a nvm
 theorem adoptNewView_runs (w : W) (nvm : NVMsg) (hh : nvm.pp.header.height = w.n.cfg.height)
     (hnl : isLeader w.n.cfg w.n.cfg.me nvm.header.view = false) (hlv : w.n.latestNV ≤ nvm.header.view)
     (hchk : NVChecked w.n.cfg nvm)
-    (hvo : ViewsOK w.n) : RunsE (.deliver (.newView nvm)) w (adoptNewView w nvm) := by
+    (hvo : ViewsOK w.n) (hspi : w.spi = spi0) : RunsE (.deliver (.newView nvm)) spi0 w (adoptNewView w nvm) := by
   have tail : ∀ (w1 : W) (ok : Bool), w1.n.cfg = w.n.cfg → w1.n.latestNV = w.n.latestNV → ViewsOK w1.n →
-      RunsE (.deliver (.newView nvm)) w1 (if (!ok) = true then w1 else
+      (latestVote nvm.header.votes = none → ok = true → ∃ cd rest, spi0 = Spi.verdict true cd :: rest) →
+      RunsE (.deliver (.newView nvm)) spi0 w1 (if (!ok) = true then w1 else
         if (!validatePreprepare w1.n ⟨nvm.pp, nvm.block⟩) = true then w1 else
           if (!(initView { w1 with n := { w1.n with latestNV := nvm.header.view } } nvm.header.view).2) = true
           then (initView { w1 with n := { w1.n with latestNV := nvm.header.view } } nvm.header.view).1
           else processPreprepare (initView { w1 with n := { w1.n with latestNV := nvm.header.view } } nvm.header.view).1 ⟨nvm.pp, nvm.block⟩) := by
-    intro w1 ok hc hl h1
+    intro w1 ok hc hl h1 hvl
     split
     · exact RunsE.refl _
+    rename_i hokk
     split
     · exact RunsE.refl _
     rename_i hval
     have hval' : validatePreprepare w1.n ⟨nvm.pp, nvm.block⟩ = true := by simpa using hval
     have hq1 : Quiet w1.n ({ w1 with n := { w1.n with latestNV := nvm.header.view } } : W).n :=
       ⟨rfl, Nat.le_refl _, by show w1.n.latestNV ≤ nvm.header.view; omega, rfl, rfl, List.prefix_refl _⟩
-    have h2 : RunsE (.deliver (.newView nvm)) w1 (initView { w1 with n := { w1.n with latestNV := nvm.header.view } } nvm.header.view).1 :=
+    have h2 : RunsE (.deliver (.newView nvm)) spi0 w1 (initView { w1 with n := { w1.n with latestNV := nvm.header.view } } nvm.header.view).1 :=
       (RunsE.quiet hq1 rfl (Appends.of_outs_eq rfl)).trans (initView_runs _ _)
     obtain ⟨i1, i2, i3, _, _, _, _⟩ := initView_n { w1 with n := { w1.n with latestNV := nvm.header.view } } nvm.header.view
     have hv2 : ViewsOK (initView { w1 with n := { w1.n with latestNV := nvm.header.view } } nvm.header.view).1.n :=
@@ -570,7 +626,7 @@ theorem adoptNewView_runs (w : W) (nvm : NVMsg) (hh : nvm.pp.header.height = w.n
     split
     · exact h2
     · refine h2.trans (processPreprepare_runs _ ⟨nvm.pp, nvm.block⟩ true ?_ ?_ ?_ (Or.inr (Or.inl rfl))
-        (Or.inr ⟨nvm, rfl, rfl, rfl, by rw [i1]; show NVChecked w1.n.cfg nvm; rw [hc]; exact hchk⟩) hv2)
+        (Or.inr ⟨nvm, rfl, rfl, rfl, by rw [i1]; show NVChecked w1.n.cfg nvm; rw [hc]; exact hchk⟩) ?_ hv2)
       · rw [i1]; show nvm.pp.header.height = w1.n.cfg.height; rw [hc]; exact hh
       · rw [i1, i2]
         show w1.n.store.getPP w1.n.cfg.height nvm.pp.header.view = none
@@ -579,18 +635,29 @@ theorem adoptNewView_runs (w : W) (nvm : NVMsg) (hh : nvm.pp.header.height = w.n
       · rw [i1]
         show isLeader w1.n.cfg w1.n.cfg.me nvm.pp.header.view = false
         rw [hc, hchk.2.1]; exact hnl
+      · intro hpre
+        rcases hpre with hf | ⟨nvm', he, hnone⟩
+        · cases hf
+        · have : nvm' = nvm := by injection he with he; injection he with he; exact he.symm
+          subst this
+          exact hvl hnone (by simpa using hokk)
   unfold adoptNewView
   by_cases hlvn : (latestVote nvm.header.votes).isNone = true
   · simp only [hlvn, if_true]
-    have h0 : RunsE (.deliver (.newView nvm)) w _ := askValidate_runs w nvm.header.height nvm.header.view nvm.block nvm.pp.header.hash
+    have h0 : RunsE (.deliver (.newView nvm)) spi0 w _ := askValidate_runs w nvm.header.height nvm.header.view nvm.block nvm.pp.header.hash
     obtain ⟨a1, a2, a3, a4, _, a6⟩ := askValidate_n w nvm.header.height nvm.header.view nvm.block nvm.pp.header.hash
-    exact h0.trans (tail _ _ a1 a6 (hvo.of_same (by rw [a2]) a4 (by rw [a3]; exact Nat.le_refl _)))
+    have hsv := askValidate_ok_spi w nvm.header.height nvm.header.view nvm.block nvm.pp.header.hash
+    exact h0.trans (tail _ _ a1 a6 (hvo.of_same (by rw [a2]) a4 (by rw [a3]; exact Nat.le_refl _))
+      (fun _ hok => by rw [← hspi]; exact hsv hok))
   · simp only [hlvn]
-    exact tail w true rfl rfl hvo
+    refine tail w true rfl rfl hvo ?_
+    intro hnone _
+    rw [hnone] at hlvn
+    exact absurd rfl hlvn
 
 theorem handleNewView_runs (w : W) (nvm : NVMsg) (hh : nvm.header.height = w.n.cfg.height)
     (hs : nvm.sender.id ≠ w.n.cfg.me) (hlv : w.n.latestNV ≤ w.n.view)
-    (hvo : ViewsOK w.n) : RunsE (.deliver (.newView nvm)) w (handleNewView w nvm) := by
+    (hvo : ViewsOK w.n) (hspi : w.spi = spi0) : RunsE (.deliver (.newView nvm)) spi0 w (handleNewView w nvm) := by
   unfold handleNewView
   dsimp only
   split; exact RunsE.refl _
@@ -622,7 +689,7 @@ theorem handleNewView_runs (w : W) (nvm : NVMsg) (hh : nvm.header.height = w.n.c
     refine ⟨?_, hpv', hph', hpi', ?_⟩
     · rw [validateVotes_cfg (a := { cfg := w.n.cfg }) (b := w.n) rfl]; simpa using hvotes
     · rw [lockOk_cfg (a := { cfg := w.n.cfg }) (b := w.n) rfl]; simpa using hlock
-  exact adoptNewView_runs w nvm (by rw [hph']; exact hh) hnl (by omega) hchk hvo
+  exact adoptNewView_runs w nvm (by rw [hph']; exact hh) hnl (by omega) hchk hvo hspi
 
 /-! ## the handler pass: elections -/
 
@@ -632,24 +699,27 @@ theorem getPP_congr {a b : Node} (hc : b.cfg = a.cfg) (hp : b.store.pps = a.stor
 
 theorem onElectedByViewChange_runs (w : W) (view : Nat) (vcs : List VCMsg)
     (hlead : isLeader w.n.cfg w.n.cfg.me view = true) (hlt : w.n.latestNV < view) (hK : LeaderPPs w.n)
-    (h' : Nat) (hvcs : vcs = w.n.store.getVCs h' view) (hqv : isQuorum w.n.cfg (vcs.map (·.c.sender.id)) = true) :
-    RunsE e w (onElectedByViewChange w view vcs) := by
+    (h' : Nat) (hvcs : vcs = w.n.store.getVCs h' view) (hqv : isQuorum w.n.cfg (vcs.map (·.c.sender.id)) = true)
+    (hspi : w.spi = spi0) :
+    RunsE e spi0 w (onElectedByViewChange w view vcs) := by
   unfold onElectedByViewChange
   dsimp only
   have hq0 : Quiet w.n ({ w with n := { w.n with latestNV := view } } : W).n :=
     ⟨rfl, Nat.le_refl _, by show w.n.latestNV ≤ view; omega, rfl, rfl, List.prefix_refl _⟩
-  have h0 : RunsE e w (initView { w with n := { w.n with latestNV := view } } view).1 :=
+  have h0 : RunsE e spi0 w (initView { w with n := { w.n with latestNV := view } } view).1 :=
     (RunsE.quiet hq0 rfl (Appends.of_outs_eq rfl)).trans (initView_runs _ _)
-  have helect : ∀ hash, ((∃ b, latestBlockFromVCs vcs = some (b, hash)) ∨ latestBlockFromVCs vcs = none) →
-      ∀ w' : W, w'.n.cfg = w.n.cfg → w'.n.store = w.n.store → w'.n.view = view → ElectedBy w'.n hash := by
+  have helect : ∀ hash, ((∃ b, latestBlockFromVCs vcs = some (b, hash)) ∨
+        (latestBlockFromVCs vcs = none ∧ ∃ b cd rest, spi0 = Spi.proposal b cd :: rest ∧ hash = b.hash)) →
+      ∀ w' : W, w'.n.cfg = w.n.cfg → w'.n.store = w.n.store → w'.n.view = view → ElectedBy spi0 w'.n hash := by
     intro hash hl w' e1 e2 e3
     refine ⟨h', ?_, ?_⟩
     · rw [e1, e2, e3, ← hvcs]; exact hqv
     · rw [e2, e3, ← hvcs]; exact hl
   obtain ⟨i1, i2, _, _, i5, i6, _⟩ := initView_n { w with n := { w.n with latestNV := view } } view
-  generalize initView { w with n := { w.n with latestNV := view } } view = r at h0 i1 i2 i5 i6 ⊢
+  have i8 : (initView { w with n := { w.n with latestNV := view } } view).1.spi = w.spi := initView_spi _ _
+  generalize initView { w with n := { w.n with latestNV := view } } view = r at h0 i1 i2 i5 i6 i8 ⊢
   obtain ⟨w1, ok⟩ := r
-  dsimp only at h0 i1 i2 i5 i6 ⊢
+  dsimp only at h0 i1 i2 i5 i6 i8 ⊢
   split
   · exact h0
   · rename_i hok
@@ -662,11 +732,14 @@ theorem onElectedByViewChange_runs (w : W) (view : Nat) (vcs : List VCMsg)
     -- storing and sending the own proposal of view `view`
     have store : ∀ (w' : W) (b : Block) (hash : Nat) (nvm : NVMsg), nvm.pp = ⟨mkRef w'.n.cfg tPP view hash, mySig w'.n.cfg⟩ →
         w'.n.view = view → w'.n.latestNV = view →
-        w'.n.store.getPP w'.n.cfg.height view = none → ElectedBy w'.n hash →
-        RunsE e w' (({ w' with n := { w'.n with store := w'.n.store.storePP ⟨⟨mkRef w'.n.cfg tPP view hash, mySig w'.n.cfg⟩, some b⟩ } } : W).emit
+        w'.n.store.getPP w'.n.cfg.height view = none → ElectedBy spi0 w'.n hash →
+        nvm.header.votes = (w'.n.store.getVCs h' w'.n.view).map (·.c) →
+        (b.hash = hash ∨ ∃ h, latestBlockFromVCs (w'.n.store.getVCs h w'.n.view) = some (b, hash)) →
+        RunsE e spi0 w' (({ w' with n := { w'.n with store := w'.n.store.storePP ⟨⟨mkRef w'.n.cfg tPP view hash, mySig w'.n.cfg⟩, some b⟩ } } : W).emit
           (.send (others w'.n.cfg) (.newView nvm))) := by
-      intro w' b hash nvm hnv hv' hl' hn' hel
-      refine RunsE.blk (l := [_]) rfl (.propose ⟨⟨mkRef w'.n.cfg tPP view hash, mySig w'.n.cfg⟩, some b⟩ true _ rfl ?_ ?_ ?_ (Or.inr rfl) ?_ ⟨rfl, rfl, rfl⟩ (fun _ => hel))
+      intro w' b hash nvm hnv hv' hl' hn' hel hvotes hbk
+      refine RunsE.blk (l := [_]) rfl (.propose ⟨⟨mkRef w'.n.cfg tPP view hash, mySig w'.n.cfg⟩, some b⟩ true _ rfl ?_ ?_ ?_ (Or.inr rfl) ?_ ⟨rfl, rfl, rfl⟩ (fun _ => hel) (by intro h; cases h)
+        ⟨b, rfl, hbk⟩ (Or.inr ⟨_, nvm, h', rfl, hnv, hvotes⟩))
       · show view = w'.n.view; omega
       · rw [hv']; exact hn'
       · omega
@@ -674,22 +747,29 @@ theorem onElectedByViewChange_runs (w : W) (view : Nat) (vcs : List VCMsg)
         rw [hnv]
     split
     · rename_i b hash heq
-      exact h0.trans (store w1 b hash _ rfl hview i5 hnone1 (helect hash (Or.inl ⟨b, heq⟩) w1 i1 i2 hview))
+      exact h0.trans (store w1 b hash _ rfl hview i5 hnone1 (helect hash (Or.inl ⟨b, heq⟩) w1 i1 i2 hview)
+        (by show vcs.map (·.c) = _; rw [i2, hview, hvcs])
+        (Or.inr ⟨h', by rw [i2, hview, ← hvcs]; exact heq⟩))
     · rename_i hnone
-      have h1 : RunsE e w1 _ := askProposal_runs w1 w1.n.cfg.height view
+      have h1 : RunsE e spi0 w1 _ := askProposal_runs w1 w1.n.cfg.height view
       obtain ⟨p1, p2, p3, _, _, p6⟩ := askProposal_n w1 w1.n.cfg.height view
-      generalize askProposal w1 w1.n.cfg.height view = r2 at h1 p1 p2 p3 p6 ⊢
+      have hps := askProposal_some_spi w1 w1.n.cfg.height view
+      generalize askProposal w1 w1.n.cfg.height view = r2 at h1 p1 p2 p3 p6 hps ⊢
       obtain ⟨w2, ob⟩ := r2
-      dsimp only at h1 p1 p2 p3 p6 ⊢
+      dsimp only at h1 p1 p2 p3 p6 hps ⊢
       split
       · rename_i b
+        obtain ⟨cd, rest, hsp⟩ := hps b rfl
+        have hsp' : spi0 = Spi.proposal b cd :: rest := by rw [← hspi, ← i8]; exact hsp
         refine (h0.trans h1).trans (store w2 b b.hash _ rfl (by rw [p3]; exact hview) (by rw [p6]; exact i5) ?_
-          (helect b.hash (Or.inr hnone) w2 (by rw [p1]; exact i1) (by rw [p2]; exact i2) (by rw [p3]; exact hview)))
+          (helect b.hash (Or.inr ⟨hnone, b, cd, rest, hsp', rfl⟩) w2 (by rw [p1]; exact i1) (by rw [p2]; exact i2) (by rw [p3]; exact hview))
+          (by show vcs.map (·.c) = _; rw [p2, i2, p3, hview, hvcs]) (Or.inl rfl))
         rw [getPP_congr p1 (by rw [p2]) view]; exact hnone1
       · exact h0.trans h1
 
-theorem checkElected_runs (w : W) (h view : Nat) (hlead : isLeader w.n.cfg w.n.cfg.me view = true) (hK : LeaderPPs w.n) :
-    RunsE e w (checkElected w h view) := by
+theorem checkElected_runs (w : W) (h view : Nat) (hlead : isLeader w.n.cfg w.n.cfg.me view = true) (hK : LeaderPPs w.n)
+    (hspi : w.spi = spi0) :
+    RunsE e spi0 w (checkElected w h view) := by
   unfold checkElected
   dsimp only
   split; exact RunsE.refl _
@@ -697,10 +777,10 @@ theorem checkElected_runs (w : W) (h view : Nat) (hlead : isLeader w.n.cfg w.n.c
   split; exact RunsE.refl _
   split; exact RunsE.refl _
   rename_i hqv
-  exact onElectedByViewChange_runs w view _ hlead (by omega) hK h rfl (by simpa using hqv)
+  exact onElectedByViewChange_runs w view _ hlead (by omega) hK h rfl (by simpa using hqv) hspi
 
-theorem handleViewChange_runs (w : W) (vcm : VCMsg) (hK : LeaderPPs w.n) :
-    RunsE (.deliver (.viewChange vcm)) w (handleViewChange w vcm) := by
+theorem handleViewChange_runs (w : W) (vcm : VCMsg) (hK : LeaderPPs w.n) (hspi : w.spi = spi0) :
+    RunsE (.deliver (.viewChange vcm)) spi0 w (handleViewChange w vcm) := by
   unfold handleViewChange
   dsimp only
   split; exact RunsE.refl _
@@ -709,9 +789,9 @@ theorem handleViewChange_runs (w : W) (vcm : VCMsg) (hK : LeaderPPs w.n) :
   split; exact RunsE.refl _
   split; exact RunsE.refl _
   split; exact RunsE.refl _
-  have hlog : RunsE (.deliver (.viewChange vcm)) w ({ w with n := { w.n with store := w.n.store.storeVC vcm } } : W) :=
+  have hlog : RunsE (.deliver (.viewChange vcm)) spi0 w ({ w with n := { w.n with store := w.n.store.storeVC vcm } } : W) :=
     RunsE.blk (l := []) (by simp) (.log (.vc vcm) rfl)
-  refine hlog.trans (checkElected_runs _ _ _ (by simpa using hl) ?_)
+  refine hlog.trans (checkElected_runs _ _ _ (by simpa using hl) ?_ hspi)
   exact hK.of_same rfl (storeVC_pps _ _) (Nat.le_refl _)
 
 theorem voteProof_eq (n : Node) :
@@ -724,16 +804,17 @@ theorem voteProof_eq (n : Node) :
 theorem vote_runs (w1 : W) (vc : VCMsg) (h nv : Nat) (hv : vc.c.header.view = w1.n.view) (hnv : nv = w1.n.view)
     (hp : vc.c.header.proof = voteProof w1.n) (hK1 : LeaderPPs w1.n)
     (hown : vc.c.sender = mySig w1.n.cfg ∧ vc.c.header.inst = w1.n.cfg.inst ∧ vc.c.header.height = w1.n.cfg.height ∧ vc.c.header.mtype = tVC)
-    (hpv : ∀ pv, w1.n.prepared = some pv → pv < w1.n.view) (hb : vc.block = voteBlock w1.n) :
-    RunsE e w1 (if isLeader w1.n.cfg w1.n.cfg.me nv = true then
+    (hpv : ∀ pv, w1.n.prepared = some pv → pv < w1.n.view) (hb : vc.block = voteBlock w1.n)
+    (hspi : w1.spi = spi0) :
+    RunsE e spi0 w1 (if isLeader w1.n.cfg w1.n.cfg.me nv = true then
         checkElected { w1 with n := { w1.n with store := w1.n.store.storeVC vc } } h nv
       else w1.emit (.send [leaderId w1.n.cfg nv] (.viewChange vc))) := by
   split
   · rename_i hl
-    have h1 : RunsE e w1 ({ w1 with n := { w1.n with store := w1.n.store.storeVC vc } } : W) :=
+    have h1 : RunsE e spi0 w1 ({ w1 with n := { w1.n with store := w1.n.store.storeVC vc } } : W) :=
       RunsE.blk (l := []) (by simp) (.voteStore vc hv hp hown hpv hb)
-    exact h1.trans (checkElected_runs _ _ _ hl (hK1.of_same rfl (storeVC_pps _ _) (Nat.le_refl _)))
-  · exact RunsE.blk (l := [_]) rfl (.voteSend vc _ hv hp hpv)
+    exact h1.trans (checkElected_runs _ _ _ hl (hK1.of_same rfl (storeVC_pps _ _) (Nat.le_refl _)) hspi)
+  · exact RunsE.blk (l := [_]) rfl (.voteSend vc _ hv hp hpv hown)
 
 theorem voteBlock_eq (n : Node) :
     (match n.prepared with
@@ -742,7 +823,8 @@ theorem voteBlock_eq (n : Node) :
   unfold voteBlock
   cases n.prepared <;> rfl
 
-theorem election_runs (w : W) (h v : Nat) (hK : LeaderPPs w.n) (hvo : ViewsOK w.n) : RunsE e w (election w h v) := by
+theorem election_runs (w : W) (h v : Nat) (hK : LeaderPPs w.n) (hvo : ViewsOK w.n) (hspi : w.spi = spi0) :
+    RunsE e spi0 w (election w h v) := by
   unfold election
   dsimp only
   split
@@ -751,11 +833,12 @@ theorem election_runs (w : W) (h v : Nat) (hK : LeaderPPs w.n) (hvo : ViewsOK w.
   have hh : h = w.n.cfg.height := by
     simp only [Bool.or_eq_true, bne_iff_ne, ne_eq, not_or, Decidable.not_not] at hhv
     exact hhv.1
-  have h0 : RunsE e w _ := initView_runs w (wrap64 (w.n.view + 1))
+  have h0 : RunsE e spi0 w _ := initView_runs w (wrap64 (w.n.view + 1))
   obtain ⟨i1, i2, i3, _, i5, i6, _⟩ := initView_n w (wrap64 (w.n.view + 1))
-  generalize initView w (wrap64 (w.n.view + 1)) = r at h0 i1 i2 i3 i5 i6 ⊢
+  have i8 : (initView w (wrap64 (w.n.view + 1))).1.spi = w.spi := initView_spi _ _
+  generalize initView w (wrap64 (w.n.view + 1)) = r at h0 i1 i2 i3 i5 i6 i8 ⊢
   obtain ⟨w1, ok⟩ := r
-  dsimp only at h0 i1 i2 i3 i5 i6 ⊢
+  dsimp only at h0 i1 i2 i3 i5 i6 i8 ⊢
   split
   · exact h0
   · rename_i hok
@@ -767,7 +850,7 @@ theorem election_runs (w : W) (h v : Nat) (hK : LeaderPPs w.n) (hvo : ViewsOK w.
       rw [hview]
       unfold wrap64 U64 at hle ⊢
       omega
-    refine h0.trans (vote_runs w1 vc h _ ?_ hview.symm ?_ hK1 ?_ ?_ ?_)
+    refine h0.trans (vote_runs w1 vc h _ ?_ hview.symm ?_ hK1 ?_ ?_ ?_ (by rw [i8]; exact hspi))
     · rw [← hvc]; exact hview.symm
     · rw [← hvc]; exact voteProof_eq w1.n
     · rw [← hvc]; exact ⟨rfl, rfl, by show h = w1.n.cfg.height; rw [i1]; exact hh, rfl⟩
@@ -777,18 +860,19 @@ theorem election_runs (w : W) (h v : Nat) (hK : LeaderPPs w.n) (hvo : ViewsOK w.
       omega
     · rw [← hvc]; exact voteBlock_eq w1.n
 
-theorem startTerm_runs (w : W) (c : Bool) (hpps : w.n.store.pps = []) (hprep : w.n.prepared = none) :
-    RunsE e w (startTerm w c) := by
+theorem startTerm_runs (w : W) (c : Bool) (hpps : w.n.store.pps = []) (hprep : w.n.prepared = none) (hspi : w.spi = spi0) :
+    RunsE e spi0 w (startTerm w c) := by
   unfold startTerm
   dsimp only
   have hq0 : Quiet w.n ({ w with n := { w.n with prepared := none } } : W).n :=
     ⟨rfl, Nat.le_refl _, Nat.le_refl _, hprep.symm, rfl, List.prefix_refl _⟩
-  have h0 : RunsE e w (initView { w with n := { w.n with prepared := none } } 0).1 :=
+  have h0 : RunsE e spi0 w (initView { w with n := { w.n with prepared := none } } 0).1 :=
     (RunsE.quiet hq0 rfl (Appends.of_outs_eq rfl)).trans (initView_runs _ _)
   obtain ⟨_, i2, _, _, _, i6, _⟩ := initView_n { w with n := { w.n with prepared := none } } 0
-  generalize initView { w with n := { w.n with prepared := none } } 0 = r at h0 i2 i6 ⊢
+  have i8 : (initView { w with n := { w.n with prepared := none } } 0).1.spi = w.spi := initView_spi _ _
+  generalize initView { w with n := { w.n with prepared := none } } 0 = r at h0 i2 i6 i8 ⊢
   obtain ⟨w1, ok⟩ := r
-  dsimp only at h0 i2 i6 ⊢
+  dsimp only at h0 i2 i6 i8 ⊢
   split
   · exact h0
   rename_i hok
@@ -797,16 +881,19 @@ theorem startTerm_runs (w : W) (c : Bool) (hpps : w.n.store.pps = []) (hprep : w
   · exact h0
   split
   · exact h0
-  · have h1 : RunsE e w1 _ := askProposal_runs w1 w1.n.cfg.height 0
+  · have h1 : RunsE e spi0 w1 _ := askProposal_runs w1 w1.n.cfg.height 0
     obtain ⟨_, p2, p3, _⟩ := askProposal_n w1 w1.n.cfg.height 0
-    generalize askProposal w1 w1.n.cfg.height 0 = r2 at h1 p2 p3 ⊢
+    have hps := askProposal_some_spi w1 w1.n.cfg.height 0
+    generalize askProposal w1 w1.n.cfg.height 0 = r2 at h1 p2 p3 hps ⊢
     obtain ⟨w2, ob⟩ := r2
-    dsimp only at h1 p2 p3 ⊢
+    dsimp only at h1 p2 p3 hps ⊢
     split
     · exact h0.trans h1
     · rename_i b
+      obtain ⟨cd, rest, hsp⟩ := hps b rfl
+      have hsp' : spi0 = Spi.proposal b cd :: rest := by rw [← hspi, ← i8]; exact hsp
       refine (h0.trans h1).trans (RunsE.blk (l := [_]) rfl
-        (.propose ⟨⟨mkRef w2.n.cfg tPP 0 b.hash, mySig w2.n.cfg⟩, some b⟩ false _ rfl ?_ ?_ (Nat.zero_le _ |> fun h => by rw [p3, hview]; exact h) (Or.inl (by rw [p3]; exact hview)) rfl ⟨rfl, rfl, rfl⟩ (by intro h; cases h)))
+        (.propose ⟨⟨mkRef w2.n.cfg tPP 0 b.hash, mySig w2.n.cfg⟩, some b⟩ false _ rfl ?_ ?_ (Nat.zero_le _ |> fun h => by rw [p3, hview]; exact h) (Or.inl (by rw [p3]; exact hview)) rfl ⟨rfl, rfl, rfl⟩ (by intro h; cases h) (fun _ => ⟨b, cd, rest, hsp', rfl⟩) ⟨b, rfl, Or.inl rfl⟩ (Or.inl ⟨_, rfl⟩)))
       · show 0 = w2.n.view; rw [p3]; exact hview.symm
       · unfold Store.getPP; rw [p2, i2]; show List.find? _ w.n.store.pps = none; rw [hpps]; rfl
 
@@ -821,21 +908,21 @@ def EventLocal (n : Node) : Event → Prop
 
 theorem step_runs (n : Node) (e : Event) (spi : List Spi) (he : EventLocal n e)
     (hvo : ViewsOK n) (hlv : n.latestNV ≤ n.view) (hK : LeaderPPs n) :
-    ∃ w' g, Runs e { n := n, spi := spi } w' g ∧ step n e spi = (w'.n, w'.outs) := by
+    ∃ w' g, Runs e spi { n := n, spi := spi } w' g ∧ step n e spi = (w'.n, w'.outs) := by
   unfold step
   dsimp only
   cases e with
-  | start c => obtain ⟨g, r⟩ := startTerm_runs { n := n, spi := spi } c he.1 he.2; exact ⟨_, g, r, rfl⟩
-  | election h v => obtain ⟨g, r⟩ := election_runs { n := n, spi := spi } h v hK hvo; exact ⟨_, g, r, rfl⟩
+  | start c => obtain ⟨g, r⟩ := startTerm_runs { n := n, spi := spi } c he.1 he.2 rfl; exact ⟨_, g, r, rfl⟩
+  | election h v => obtain ⟨g, r⟩ := election_runs { n := n, spi := spi } h v hK hvo rfl; exact ⟨_, g, r, rfl⟩
   | cancelOlder h v =>
     refine ⟨{ n := { n with reg := (Contexts.step n.reg (.cancelOlderThan ⟨h, v⟩)).1 }, spi := spi }, [],
       .blk (l := []) (by simp) (.quiet (Quiet.of_eqs rfl rfl rfl rfl rfl) rfl (by simp)), rfl⟩
   | deliver m =>
     cases m with
-    | preprepare x => obtain ⟨g, r⟩ := handlePrePrepare_runs { n := n, spi := spi } x he.1 he.2 hvo; exact ⟨_, g, r, rfl⟩
+    | preprepare x => obtain ⟨g, r⟩ := handlePrePrepare_runs { n := n, spi := spi } x he.1 he.2 hvo rfl; exact ⟨_, g, r, rfl⟩
     | prepare x => obtain ⟨g, r⟩ := handlePrepare_runs { n := n, spi := spi } x he hvo; exact ⟨_, g, r, rfl⟩
     | commit x => obtain ⟨g, r⟩ := handleCommit_runs { n := n, spi := spi } x; exact ⟨_, g, r, rfl⟩
-    | viewChange x => obtain ⟨g, r⟩ := handleViewChange_runs { n := n, spi := spi } x hK; exact ⟨_, g, r, rfl⟩
-    | newView x => obtain ⟨g, r⟩ := handleNewView_runs { n := n, spi := spi } x he.1 he.2 hlv hvo; exact ⟨_, g, r, rfl⟩
+    | viewChange x => obtain ⟨g, r⟩ := handleViewChange_runs { n := n, spi := spi } x hK rfl; exact ⟨_, g, r, rfl⟩
+    | newView x => obtain ⟨g, r⟩ := handleNewView_runs { n := n, spi := spi } x he.1 he.2 hlv hvo rfl; exact ⟨_, g, r, rfl⟩
 
 end LeanHelix.Term
